@@ -46,6 +46,7 @@ def overlaps(iv, stored):
 
 
 class C06World(DstWorld):
+    prop = P
     name = "DST-C06"
 
     def __init__(self, **cfg):
